@@ -132,7 +132,7 @@ CONC_TRUST = ["translator /verif/tools/gen: skeleton extraction (ordered sync/at
 
 PROPS['C14'] = {
     'modules': ['OtterVerif.Props.C14'],
-    'engines': [{'kind': 'unit', 'name': 'concdrain', 'hcmd': 'conc-drain', 'dcmd': 'concdrain', 'quick': 48, 'thorough': 2000, 'chunk': 4, 'args': []}],
+    'engines': [{'kind': 'unit', 'name': 'concdrain', 'hcmd': 'conc-drain', 'dcmd': 'concdrain', 'quick': 120, 'thorough': 3000, 'chunk': 8, 'args': []}],
     'rule': 'CONC-drain: rounds of concurrent writers (disjoint keys) with InvalidateAll / Hottest / Coldest / GetMaximum / read callers on a size-bounded cache with the default executor; after all calls returned and the '
             'cache-started goroutines settled, without any further cache call: drainStatus idle, write buffer empty, OnDeletion count = atomic count, size <= maximum. distinct = distinct transcripts with >= 10 quiescent points',
     'trusted': CONC_TRUST,
